@@ -4,7 +4,11 @@
 #     queries (valid documents, mutated documents, arbitrary trees).
 # ORACLE (independent of the model): Python's json module as the reference parser on grammar-generated valid
 #     documents; print -> parse round trip through the library and through Python; pure-ASCII with the code-point flag.
-import os, sys, json, struct
+#     Numbers: STRUCTURE (the parse consumes exactly the number: token sequence of the reference parser, no tolerance)
+#     before VALUE (1e-9 relative, iwstrtod is inexact).
+# env: VERIF_DEBUG=1 prints T2 mismatches; VERIF_JTEXT_OPEN=range-exp[,range-mant,refused]|all judges the recorded limits of iwstrtod too.
+import os, sys, json, struct, math, re
+from decimal import Decimal
 import vlib
 from common import diff_run
 
@@ -209,7 +213,13 @@ def py_dump(v, out):
             py_dump(x, out)
         out.append("]")
     elif isinstance(v, tuple) and v[0] == 'i':
-        out.append("i%d" % v[1])
+        if I64MIN <= v[1] <= I64MAX:
+            out.append("i%d" % v[1])
+        else:                                     # an integer text beyond int64 is read as a double (fix g)
+            try:
+                out.append(("d", float(v[1])))
+            except OverflowError:
+                out.append(("d", math.inf if v[1] > 0 else -math.inf))
     elif isinstance(v, tuple) and v[0] == 'd':
         out.append(("d", float(v[1])))
     elif isinstance(v, tuple) and v[0] == 'o':
@@ -244,7 +254,8 @@ def bits_to_float(h):
 
 
 def same_tokens(lib, ref, ftol):
-    """lib: tokens of the library dump; ref: tokens from py_parse. Returns None or a reason."""
+    """lib: tokens of the library dump; ref: tokens from py_parse. Returns None or a reason.
+    ftol None: structure only (same tokens, a double wherever the reference has a non-int64 number)"""
     if len(lib) != len(ref):
         return "different shape (%d vs %d tokens)" % (len(lib), len(ref))
     for a, b in zip(lib, ref):
@@ -252,7 +263,7 @@ def same_tokens(lib, ref, ftol):
             if not a.startswith("d"):
                 return "number %r is not a double in the library (%s)" % (b[1], a[:40])
             x = bits_to_float(a[1:17])
-            if not (abs(x - b[1]) <= ftol(b[1])):
+            if ftol is not None and not (abs(x - b[1]) <= ftol(b[1])):
                 return "double differs: library %r reference %r" % (x, b[1])
         elif a != b:
             return "token differs: library %s reference %s" % (a[:60], b[:60])
@@ -449,10 +460,167 @@ def check_printed_double(x, text):
     return None
 
 
+# ------------------------------------------------------------------------------------------------ number texts
+# Round 4 (seeded miss: the fraction loop of iwstrtod stopped after ~24 digits): number texts at the limits of every loop
+# and accumulator of the number scanner, each placed at top level, inside arrays (followed by more elements) and as an
+# object member value.  Two oracles: STRUCTURE (the parse consumes exactly the number: same token sequence as the
+# reference parser; needs no tolerance) and VALUE (tol_parse, iwstrtod is inexact).
+NUM_LENS = [1, 15, 16, 17, 19, 20, 24, 25, 26, 40, 55, 100, 400]
+NUM_EXPS = [0, 1, 22, 23, 307, 308, 309, 323, 324, 400]
+NUM_START = re.compile(rb"[.\-0-9]")
+NUM_RE = re.compile(r"^(-?)(\d+)(?:\.(\d+))?(?:[eE]([+-]?\d+))?$")
+EXACT_DOUBLES = [0.1, 0.3, 1.0 / 3, 2.0 ** -1074, 2.0 ** -1022, math.nextafter(2.0 ** -1022, 0.0), 1.7976931348623157e308,
+                 2.0 ** -30, 1e-7, 5e-5, 123456.789, 1e22, 1e23, 2.0 ** 63, 2.0 ** 64, 4503599627370496.5, 2.0 ** -60, 1e-25, 1e-24, 1e-26]
+DBL_MAX_TEXT = format(Decimal(1.7976931348623157e308), "f")
+# range-exp (exponents beyond +-308 of representable numbers) is judged by default since the repair a215cb1 in /repo
+OPEN = set(os.environ.get("VERIF_JTEXT_OPEN", "range-exp").replace("all", "range-exp,range-mant,refused").replace("range,", "range-exp,").split(",")) - {""}
+if "range" in OPEN:
+    OPEN.add("range-exp")
+
+
+def num_digits(rng, n, pat, nonzero_first=False):
+    if pat == "9":
+        return "9" * n
+    if pat == "10":
+        return "1" + "0" * (n - 1)                # trailing zeros
+    if pat == "01":
+        return "0" * (n - 1) + "1"                # leading zeros
+    if pat == "5":
+        return ("1234567890" * (n // 10 + 1))[:n]
+    d = "".join(str(rng.below(10)) for _ in range(n))
+    if nonzero_first and d[0] == "0":
+        d = str(rng.range(1, 9)) + d[1:]
+    return d
+
+
+def num_scope(txt):
+    """'ok': the reference value must be met; 'overflow': beyond the double range (nothing to compare); the others are limits
+    of iwstrtod's method d * pow(10, e) recorded in notes/jtext.md, where the value is representable but the text is
+    rejected (ERANGE) or read imprecisely: 'range-exp' exponent outside -308..308, 'range-mant' the digit string alone
+    leaves the double range, 'refused' 2.2250738585072011e-308 (refused on purpose).  These are judged by T2 and, when the
+    library accepts the text, by the structural oracle; rejection and value only with VERIF_JTEXT_OPEN=<class,...|all>"""
+    m = NUM_RE.match(txt)
+    assert m, txt
+    sg, ip, fp, ex = m.groups()
+    if ip != "0" and ip[0] == "0":
+        raise ValueError("not a JSON number: " + txt[:40])
+    if fp is None and ex is None and len(ip) <= 18:
+        return "ok"
+    if math.isinf(float(txt)):
+        return "overflow"
+    mant = float(ip + "." + (fp or "0"))
+    if mant > 1.797e308 and ip != DBL_MAX_TEXT:
+        return "range-mant"
+    if ex is not None:
+        e = int(ex)
+        if mant < 1e-290 and e > 0 and (ip + (fp or "")).strip("0"):
+            return "range-mant"                   # the fraction loop's base is a subnormal (or 0) by then
+        if e < -308 or e > 308:                   # pow(10, e) overflows, underflows (ERANGE) or is a subnormal with few bits left
+            return "range-exp"
+        if e == -308 and mant == 2.2250738585072011:
+            return "refused"
+    return "ok"
+
+
+def number_edges(rng):
+    """deterministic part: every length in NUM_LENS for each of the three digit runs, every exponent in NUM_EXPS with every
+    sign, the exact decimal expansions of doubles"""
+    out = []
+    E = lambda: rng.choice("eE")
+    for i, n in enumerate(NUM_LENS):
+        for j, pat in enumerate(("9", "10", "r", "5")):                      # integer part
+            ip = num_digits(rng, n, pat, True)
+            out.append(ip)
+            out.append(ip + [".5", "e0", ".0", E() + "+1", ".25" + E() + "-%d" % n, "e-0"][(i + j) % 6])
+        for j, pat in enumerate(("9", "10", "01", "r", "5")):                # fraction
+            fp = num_digits(rng, n, pat)
+            out.append("0." + fp)
+            out.append(["1", "9", "10", "123456789012345678", "0", "99999"][(i + j) % 6] + "." + fp +
+                       ["", "e5", E() + "-5", "", "e+%d" % min(n, 300), E() + "0"][(i + 2 * j) % 6])
+        for j, v in enumerate((0, 1, 5, 22, 307)):                           # exponent digits: leading zeros up to length n
+            ex = str(v).rjust(n, "0")
+            if len(ex) == n:
+                out.append(["1", "2.5", "0.001", "12345678901234567890"][(i + j) % 4] + E() + ["", "+", "-"][(i + j) % 3] + ex)
+        out.append("1" + E() + ["", "+", "-"][i % 3] + num_digits(rng, n, "9"))   # over/underflowing exponents of every length
+    for i, e in enumerate(NUM_EXPS):
+        for j, sg in enumerate(("", "+", "-")):
+            for k, mant in enumerate(("1", "2.5", "0.001", "123456789012345678", "0", "9.999999999999999999999999999")):
+                out.append(mant + E() + sg + str(e))
+            out.append("1" + "0" * e + E() + "-" + str(e)) if sg == "-" else out.append("0." + "0" * e + "1" + E() + sg + str(e))
+    for x in EXACT_DOUBLES:
+        t = format(Decimal(x), "f")
+        out += [t, t + "e0", t + E() + "-5", t + E() + "+5"]
+        if "." in t:
+            out.append(t.rstrip("0") + "0" * 30)
+    out += ["9007199254740993", "9007199254740993.0", "9007199254740993e0", "2.2250738585072011e-308", "2.2250738585072012e-308",
+            "2.2250738585072012e-309", "0.0", "0e0", "0.0e0", "0E-0", "0e+00", "1e00", "1.5E+000", "0.1e1", "0.5", "1e-7", "4.9e-323", "1e-323",
+            "1.7976931348623157e308", "1.7976931348623157E+308", "17976931348623157e292", "0.00000000000000000000000000000012345",
+            "1.0000000000000000000000000000000000000001e5", "0.1234567890123456789012345678901234567890", "18446744073709551615",
+            "18446744073709551616", "9223372036854775807", "9223372036854775808", "9223372036854775808.0", "99999999999999999999.99999999999999999999"]
+    res = []
+    for t in out:
+        res.append(t)
+        res.append("-" + t)
+    return res
+
+
+def gen_number(rng):
+    near = lambda n: max(1, n + rng.choice([0, 0, 0, -1, 1]))
+    ln = lambda: near(rng.weighted([(rng.choice(NUM_LENS[:9]), 6), (rng.choice(NUM_LENS), 3), (rng.range(1, 60), 3)]))
+    pat = lambda: rng.choice(["9", "10", "01", "r", "r", "r", "5"])
+    ip = "0" if rng.chance(1, 4) else num_digits(rng, ln() if rng.chance(1, 2) else rng.range(1, 6), rng.choice(["9", "10", "r", "r", "5"]), True)
+    s = ("-" if rng.chance(1, 3) else "") + ip
+    k = rng.below(8)
+    if k < 6:
+        s += "." + num_digits(rng, ln() if rng.chance(2, 3) else rng.range(1, 6), pat())
+    if k >= 4 or (k == 3):
+        e = max(0, rng.choice(NUM_EXPS + [2, 5, 10, 15, 21, 24, 100, 300]) + rng.choice([0, 0, -1, 1]))
+        s += rng.choice("eE") + rng.choice(["", "+", "-"]) + "0" * rng.choice([0, 0, 0, 1, 2, 20, 100]) + str(e)
+    return s
+
+
+NUM_PLACES = 8
+
+
+def place_number(rng, t, j):
+    """document around the number text t, and the number of copies of t inside"""
+    o = num_digits(rng, rng.range(1, 3), "r", True)
+    w = lambda: rng.choice(["", "", " ", "\n", "\t ", "\r\n"])
+    j %= NUM_PLACES
+    if j == 0:
+        return t
+    if j == 1:
+        return "[%s]" % t
+    if j == 2:
+        return "[%s,%s]" % (t, o)                                    # followed by more elements
+    if j == 3:
+        return '{"a":%s,"b":true}' % t                               # member value followed by another member
+    if j == 4:
+        return '{"a":%s}' % t
+    if j == 5:
+        return "[%s%s%s,%s%s%s,%snull,%s]" % (w(), o, w(), w(), t, w(), w(), t)
+    if j == 6:
+        return '{%s"k"%s:%s%s%s,"n":[%s,"x"],"%s":%s}' % (w(), w(), w(), t, w(), t, o, o)
+    return "[[%s],[%s,%s],{\"v\":%s}]" % (t, t, o, t)
+
+
+def scan_sweep():
+    """complete sweep of the scanner's branch combinations: white space x sign x integer digits x fraction x exponent x follower"""
+    out = []
+    for a in ("", " ", "\t\n"):
+        for b in ("", "-", "+"):
+            for c in ("", "0", "12", "007"):
+                for d in ("", ".", ".5", ".50", ".."):
+                    for e in ("", "e", "E5", "e+", "E-", "e-07", "e00", "e+x", "ex", "e0000x", "e000", "e+0012"):
+                        for f in ("", "]", "5", ".1", "e1", "-1", ", 2"):
+                            out.append((a + b + c + d + e + f).encode())
+    return out
+
+
 # ------------------------------------------------------------------------------------------------ the check
 def nums_tables(impl, docs):
     """oracle inputs: iwstrtod at every possible number start, from the implementation"""
-    need = [i for i, d in enumerate(docs) if any(c in b".-0123456789" for c in d)]
+    need = [i for i, d in enumerate(docs) if NUM_START.search(d)]
     tabs = ["-"] * len(docs)
     if need:
         rc, out, err = vlib.run_lines(impl, "".join("nums %s\n" % vlib.hexs(docs[i]) for i in need))
@@ -499,6 +667,18 @@ def check(run):
             docs.append((b"[" * k + inner + b"]" * k, k <= MAXNEST, "nest"))
         docs.append((b'{"a":' * k + b"null" + b"}" * k, k <= MAXNEST, "nest"))
         docs.append((b'[{"k":' * (k // 2) + b"[]" + b"}]" * (k // 2), k // 2 * 2 + 1 <= MAXNEST, "nest"))
+    # number texts at the limits of the scanner: top level, array element followed by more, member value followed by more
+    numtexts = []
+    for i, t in enumerate(number_edges(rng.fork())):
+        numtexts.append((t, [0, 2, 3, (1, 4, 5, 6, 7)[i % 5]]))
+    for i in range((500 if tier == "quick" else 20000) * mult):
+        r = rng.fork()
+        numtexts.append((gen_number(r), [r.below(NUM_PLACES), 2 + r.below(2)]))
+    for t, places in numtexts:
+        sc = num_scope(t)
+        for j in places:
+            docs.append((place_number(rng, t, j).encode(), True if (sc == "ok" or sc in OPEN) else "struct",
+                         "number" if sc == "ok" else "number/" + sc))
     for i in range(N):
         r = rng.fork()
         v = gen_value(r, r.weighted([(0, 2), (1, 3), (2, 4), (3, 3), (5, 1)]))
@@ -583,6 +763,19 @@ def check(run):
         s = bytes(x for x in s if x != 0)
         lines.append("strtoll %s" % vlib.hexs(s)); meta.append(("strtoll", s))
 
+    # the number scanner alone: every generated number text with followers, and the complete sweep of its branch combinations
+    FOL = [b"", b"]", b",", b"}", b" ", b"\n", b"x", b".", b"e", b"E+", b"e-]", b"5", b"-", b"+1", b"e5", b".5", b"\t1", b"0"]
+    for t, _ in numtexts:
+        tb = t.encode()
+        for f in (b"", rng.choice(FOL), rng.choice(FOL)):
+            q = rng.choice([b"", b"", b"", b" ", b"+", b"\t"]) + tb + f
+            lines.append("strtod %s" % vlib.hexs(q)); meta.append(("strtod", q))
+        if len(tb) > 3 and rng.chance(1, 2):
+            q = mutate(rng, tb)
+            lines.append("strtod %s" % vlib.hexs(q)); meta.append(("strtod", q))
+    for q in scan_sweep():
+        lines.append("strtod %s" % vlib.hexs(q)); meta.append(("strtod", q))
+
     out_i, out_m, mism, err = diff_run(impl, model, lines)
     if err:
         run.broken.append("T2 harness: " + err)
@@ -621,10 +814,13 @@ def check(run):
     # ---------------- ORACLE 1: valid documents against the reference parser
     nviol = {}
 
-    def viol(q, impl_out, why, kind):
+    def viol(q, impl_out, why, kind, doc=None):
         nviol[kind] = nviol.get(kind, 0) + 1
         if nviol[kind] <= 3:                       # a few replays per kind of failure are enough
-            run.violation({"query": q, "impl": impl_out, "kind": kind}, why)
+            r = {"query": q, "impl": impl_out, "kind": kind}
+            if doc is not None:
+                r["document"] = doc.decode("latin-1")[:2000]
+            run.violation(r, why)
 
     scope_docs = []
     for i, m in enumerate(meta):
@@ -638,14 +834,25 @@ def check(run):
         except (ValueError, UnicodeDecodeError, RecursionError) as e:
             run.broken.append("generator produced a document the reference parser rejects: %r (%s)" % (d[:80], e))
             continue
-        scope_docs.append((d, ref))
         o = out_i[i].split()
+        nk = "num-" if m[3].startswith("number") else ""
+        if scope == "struct":                     # beyond the double range / a recorded limit of iwstrtod: structure only, if accepted
+            why = same_tokens(o[1:], ref, None) if o and o[0] == "ok" else None
+            if why:
+                viol(lines[i], out_i[i], "parse does not consume the text as the reference parser does on %r: %s" % (d[:120], why), nk + "structure", d)
+            continue
+        scope_docs.append((d, ref))
         if not o or o[0] != "ok":
-            viol(lines[i], out_i[i], "valid JSON document rejected: %r -> %s" % (d[:120], out_i[i][:60]), "reject")
+            viol(lines[i], out_i[i], "valid JSON document rejected: %r -> %s" % (d[:120], out_i[i][:60]), nk + "reject", d)
+            continue
+        # STRUCTURE first (no tolerance): the same token sequence, numbers where the reference has numbers
+        why = same_tokens(o[1:], ref, None)
+        if why:
+            viol(lines[i], out_i[i], "parse does not consume the text as the reference parser does on %r: %s" % (d[:120], why), nk + "structure", d)
             continue
         why = same_tokens(o[1:], ref, tol_parse)
         if why:
-            viol(lines[i], out_i[i], "parsed value differs from the reference parser on %r: %s" % (d[:120], why), "value")
+            viol(lines[i], out_i[i], "parsed value differs from the reference parser on %r: %s" % (d[:120], why), nk + "value", d)
 
     # ---------------- ORACLE 2: print -> parse round trips on the valid documents, every flag set
     rtl, rtm = [], []
@@ -794,11 +1001,21 @@ def check(run):
     return run.finish(level=LEVEL,
                       rule="grammar-generated valid JSON documents (every escape spelling, code-point edges 0x7F/0x80/0x7FF/0x800/0xFFFF/"
                            "0x10000/0x10FFFF, all control characters, integers around +-2^63 and 2^53, nesting 998..1001, whitespace layouts, BOM), "
+                           "number texts at the limits of the number scanner (integer / fraction / exponent digit runs of 1..400 digits, all nines, "
+                           "leading and trailing zeros, exact decimal expansions of doubles incl. 2^-1074, 2^-1022, DBL_MAX, exponents 0..400 with "
+                           "either sign and up to 100 leading zeros; each at top level, in arrays followed by more elements, as member values; "
+                           "structural oracle = same token sequence as the reference parser, value oracle = 1e-9 relative), the scanner alone on "
+                           "every such text with followers and on a complete sweep of its branch combinations (strtod queries, T2), "
                            "mutated documents (T2 only), arbitrary trees with arbitrary byte strings x print flags, string bodies x buffer sizes, "
                            "code points, byte sequences, strtoll texts; a case is one query line; distinct = distinct query text",
                       assumptions=["doubles are outside the model: number->double (iwstrtod) and double->text (iwjson_ftoa) are oracle inputs taken "
                                    "from the implementation; the reference comparison of doubles is approximate (1e-9 relative on parse, 8 fraction "
-                                   "digits on print); float tokens keep their integer part below 2^63 and |x| < 1e21",
+                                   "digits on print); the END of a number is decided by the model (strtod_end) and, independently, by the "
+                                   "structural oracle",
+                                   "limits of iwstrtod's method d * pow(10, e), recorded in notes/jtext.md: numbers whose exponent is outside "
+                                   "-308..308 or whose digit string alone exceeds the double range (rejected with ERANGE or imprecise although the "
+                                   "value may be representable) and 2.2250738585072011e-308 (refused on purpose) are judged by T2 and the "
+                                   "structural oracle only; VERIF_JTEXT_OPEN=range-exp,range-mant,refused|all makes them full oracle cases",
                                    "documents are shorter than 2^31 bytes (C int lengths)",
                                    "errno is 0 when jbn_from_json is entered (stale ERANGE is finding C17)"])
 
